@@ -275,10 +275,10 @@ func init() {
 						continue
 					}
 					sum, isSum := lhs.(*ssa.BinOp)
-					if !isSum || sum.Op != token.ADD || (sum.X != old && sum.Y != old) {
+					if !isSum || sum.Op != token.ADD || (!sameValue(sum.X, old) && !sameValue(sum.Y, old)) {
 						continue
 					}
-					if rhs == nw {
+					if sameValue(rhs, nw) {
 						okS = true
 					}
 				}
